@@ -73,6 +73,13 @@ fn one() {
                         if t.len() >= 2 {
                             let ty = unhex_str(t[0]);
                             let field = unhex_str(t[1]);
+                            // the same code path also emits the query of a `@loadable` field
+                            let declared = p.decls.iter().any(|(_, d)| d.is_entrypoint() && d.parent() == ty && d.name() == field);
+                            if !declared {
+                                meta = None;
+                                qmap = None;
+                                continue;
+                            }
                             let qt = outcome.artifacts.get(&format!("{ty}/{field}/query_text.ts"));
                             let na = outcome.artifacts.get(&format!("{ty}/{field}/normalization_ast.ts"));
                             writeln!(
